@@ -165,7 +165,7 @@ def build(rec: Dict[str, Any], seed: int, axis_aligned: bool = False) -> Built:
 
   world = "".join(body_xml(b) for b in children[0])
   if F("floor"):
-    world = '<geom name="floor" type="plane" size="5 5 .1"/>' + world
+    world = '<geom name="floor" type="plane" size="5 5 .1" condim="1"/>' + world
   if F("tendon_spatial") and F("wrap"):
     world += ('<geom name="wrapg" type="sphere" size="0.08" pos="0.2 0.1 1.1" contype="0" conaffinity="0"/>'
               '<site name="wrapside" pos="0.2 0.1 1.3" size="0.01"/>')
@@ -369,7 +369,20 @@ def make_state(rec: Dict[str, Any], mjm, seed: int, vscale: float = 1.0) -> Dict
   r = rng_for(c, seed, "state")
   qc, vc = c.get("qc", "rand"), c.get("vc", "rand")
   qpos = mjm.qpos0.copy()
-  if qc != "zero":
+  if qc == "near":  # small perturbation of qpos0: equality constraints stay nearly satisfied
+    for j in range(mjm.njnt):
+      a = mjm.jnt_qposadr[j]
+      t = mjm.jnt_type[j]
+      if t == mujoco.mjtJoint.mjJNT_FREE:
+        qpos[a : a + 3] += r.uniform(-0.01, 0.01, size=3)
+        q = qpos[a + 3 : a + 7] + 0.03 * r.normal(size=4)
+        qpos[a + 3 : a + 7] = q / np.linalg.norm(q)
+      elif t == mujoco.mjtJoint.mjJNT_BALL:
+        q = qpos[a : a + 4] + 0.03 * r.normal(size=4)
+        qpos[a : a + 4] = q / np.linalg.norm(q)
+      else:
+        qpos[a] += r.uniform(-0.03, 0.03)
+  elif qc != "zero":
     for j in range(mjm.njnt):
       a = mjm.jnt_qposadr[j]
       t = mjm.jnt_type[j]
